@@ -59,6 +59,7 @@ def run(rep):
     partial_rows_lib(rep, fns)
     bmp_bit_manipulators(rep, fns)
     scanline_iterator_protocol(rep, fns)
+    tiff_palette_size(rep, fns)
 
 
 def must_call(rep, fns):
@@ -855,3 +856,33 @@ def scanline_iterator_protocol(rep, fns):
     else:
         rep.ok("S13-scanline-iterator", "S13:scanline_read_iterator", {"states_explored": len(seen)})
     rep.floor("obligations:S13", 1)
+
+
+
+def tiff_palette_size(rep, fns):
+    """S14: the tiff reader and the tiff scanline reader wrap the colour map in a palette view with one entry per index value"""
+    rep.rule("S14 tiff palette: every planar_rgb_view over the colour map (reader and scanline reader) is max_value()+1 entries wide, max_value() being the index "
+             "channel's maximum: the highest index addresses the last entry (siblings must agree; canonical form, the width local inlined)")
+    seen = {}
+    for f in fns:
+        if fmt_of(f) != "tiff" or f.get("body") is None or not re.search(r"::(reader|scanline_reader)::", "::" + f["name"].split("boost::gil::")[-1]):
+            continue
+        g = R.canonize(f)
+        for c, _ in R.calls_in(g["body"], lambda n: n.endswith("::planar_rgb_view")):
+            w = re.sub(r"\.operator [\w ]+\(\)", "", R.key(c["args"][0]))
+            cls = f["name"].split("::")[-2]
+            # a width held in a once-assigned local: resolve it
+            if re.fullmatch(r"%\d+", w) and g["canon_single"].get(w):
+                w = re.sub(r"\.operator [\w ]+\(\)", "", {dd["name"]: R.key(dd["init"]) for d, _ in R.find(g["body"], lambda x: x.get("k") == "Decl") for dd in d["decls"] if dd.get("init") is not None}.get(w, w))
+            key = "S14:tiff:%s::%s:palette width" % (cls, f["name"].split("::")[-1])
+            ok = w in ("(max_value() + 1)", "(1 + max_value())")
+            if key not in seen or (seen[key][0] and not ok):
+                seen[key] = (ok, w, R.fn_where(f, c))
+    for key, (ok, w, where) in sorted(seen.items()):
+        rep.count("obligations:S14")
+        if ok:
+            rep.ok("S14-palette-size", key, w)
+        else:
+            rep.violation("S14-palette-size", key, where, {"width": w, "expected": "max_value() + 1", "problem": "the palette view has no entry for the highest index: a pixel with that index is outside the view "
+                                                           "(assertion in debug builds; the sibling reader uses max_value()+1)"})
+    rep.floor("obligations:S14", 2)
